@@ -46,8 +46,7 @@ Section Below.
 
   Definition Below (st : est A) : Prop :=
     (forall n, le (e_post A st n) (Lpost n)) /\
-    (forall n, le (e_pre A st n) (Lpre n)) /\
-    (e_skip A st = true -> le (strengthen A OP use_asm asm entry (e_pre A st entry)) (Lpre entry)).
+    (forall n, le (e_pre A st n) (Lpre n)).
 
   Lemma strengthen_le n a : le (strengthen A OP use_asm asm n a) a.
   Proof. unfold strengthen. destruct use_asm; auto. destruct (asm n); auto. Qed.
@@ -55,19 +54,23 @@ Section Below.
   Lemma strengthen_mono n a b : le a b -> le (strengthen A OP use_asm asm n a) (strengthen A OP use_asm asm n b).
   Proof. intros H. unfold strengthen. destruct use_asm; auto. destruct (asm n); auto. Qed.
 
+  Lemma join_posts_from_below post n : (forall p, le (post p) (Lpost p)) -> forall ps acc,
+    (forall p, In p ps -> In p (preds n)) ->
+    le (strengthen A OP use_asm asm n acc) (Lpre n) ->
+    le (strengthen A OP use_asm asm n (join_posts_from A OP post ps acc)) (Lpre n).
+  Proof.
+    intros P. unfold join_posts_from.
+    induction ps as [|p r IH]; simpl; intros acc I H; auto.
+    apply IH; [intros q J; apply I; right; auto|].
+    apply strengthen_join; auto.
+    eapply le_trans; [apply strengthen_mono; apply P|]. apply sol_pre. apply I. left; auto.
+  Qed.
+
   Lemma join_posts_below post n : (forall p, le (post p) (Lpost p)) -> forall ps,
     (forall p, In p ps -> In p (preds n)) ->
     le (strengthen A OP use_asm asm n (join_posts A OP post ps)) (Lpre n).
   Proof.
-    intros P. unfold join_posts.
-    assert (G : forall ps acc, (forall p, In p ps -> In p (preds n)) ->
-              le (strengthen A OP use_asm asm n acc) (Lpre n) ->
-              le (strengthen A OP use_asm asm n (fold_left (fun acc p => o_join A OP acc (post p)) ps acc)) (Lpre n)).
-    { induction ps as [|p r IH]; simpl; intros acc I H; auto.
-      apply IH; [intros q J; apply I; right; auto|].
-      apply strengthen_join; auto.
-      eapply le_trans; [apply strengthen_mono; apply P|]. apply sol_pre. apply I. left; auto. }
-    intros ps I. apply G; auto.
+    intros P ps I. unfold join_posts. apply join_posts_from_below; auto.
   Qed.
 
   Lemma tset_le (t : nat -> A) (L : nat -> A) n v :
@@ -75,28 +78,17 @@ Section Below.
   Proof. intros H Hv m. unfold tset. destruct (Nat.eqb_spec m n); subst; auto. Qed.
 
   Lemma visit_vertex_below n st : Below st ->
-    Below (visit_vertex A OP analyze preds entry use_asm asm n st).
+    Below (visit_vertex A OP analyze preds entry use_asm asm init n st).
   Proof.
-    intros (P & Q & S). unfold visit_vertex.
-    destruct (e_skip A st) eqn:SK; destruct (Nat.eqb n entry) eqn:E; cbn [andb negb].
-    - (* the entry vertex: un-skip *)
-      apply Nat.eqb_eq in E. subst n.
-      assert (X : le (strengthen A OP use_asm asm entry (e_pre A st entry)) (Lpre entry)) by auto.
-      repeat split; cbn [e_pre e_post e_skip].
-      + apply tset_le; auto. eapply le_trans; [apply analyze_mono; exact X|apply sol_post].
-      + apply tset_le; auto.
-      + discriminate.
-    - (* still skipping *)
-      repeat split; auto.
-    - apply Nat.eqb_eq in E. subst n.
-      assert (X : le (strengthen A OP use_asm asm entry (e_pre A st entry)) (Lpre entry)).
-      { eapply le_trans; [apply strengthen_le|apply Q]. }
-      repeat split; cbn [e_pre e_post e_skip]; try discriminate.
-      + apply tset_le; auto. eapply le_trans; [apply analyze_mono; exact X|apply sol_post].
-      + apply tset_le; auto.
-    - assert (X : le (strengthen A OP use_asm asm n (join_posts A OP (e_post A st) (preds n))) (Lpre n)).
-      { apply join_posts_below; auto. }
-      repeat split; cbn [e_pre e_post e_skip]; try discriminate.
+    intros (P & Q). unfold visit_vertex.
+    destruct (if e_skip A st && Nat.eqb n entry then false else e_skip A st).
+    - split; auto.
+    - assert (X : le (strengthen A OP use_asm asm n
+                        (join_posts_from A OP (e_post A st) (preds n)
+                           (if Nat.eqb n entry then init else o_bot A OP))) (Lpre n)).
+      { apply join_posts_from_below; auto.
+        destruct (Nat.eqb_spec n entry) as [->|NE]; [apply sol_init|apply strengthen_bot]. }
+      split; cbn [e_pre e_post e_skip].
       + apply tset_le; auto. eapply le_trans; [apply analyze_mono; exact X|apply sol_post].
       + apply tset_le; auto.
   Qed.
@@ -105,11 +97,11 @@ Section Below.
     match r with Some st => Below st | None => True end.
 
   Lemma head_inflow_below h entry_pre st :
-    Below st -> e_skip A st = false ->
+    Below st ->
     (forall ip, entry_pre = Some ip -> le (strengthen A OP use_asm asm h ip) (Lpre h)) ->
     le (head_inflow A OP preds use_asm asm h entry_pre st) (Lpre h).
   Proof.
-    intros (P & Q & S) SK EP. unfold head_inflow.
+    intros (P & Q) EP. unfold head_inflow.
     destruct entry_pre as [ip|].
     - apply strengthen_join; auto. apply join_posts_below; auto.
     - apply join_posts_below; auto.
@@ -117,67 +109,65 @@ Section Below.
 
   Section CycleBelow.
     Variable vbody : est A -> option (est A).
-    Hypothesis vbody_below : forall st, Below st -> e_skip A st = false ->
-      match vbody st with Some st' => Below st' /\ e_skip A st' = false | None => True end.
+    Hypothesis vbody_below : forall st, Below st ->
+      match vbody st with Some st' => Below st' | None => True end.
     Variable h : nat.
     Variable entry_pre : option A.
     Hypothesis entry_pre_below : forall ip, entry_pre = Some ip ->
       le (strengthen A OP use_asm asm h ip) (Lpre h).
 
-    Lemma set_head_below st pre : Below st -> e_skip A st = false -> le pre (Lpre h) ->
+    Lemma set_head_below st pre : Below st -> le pre (Lpre h) ->
       Below (mkE A (tset A (e_pre A st) h pre) (tset A (e_post A st) h (analyze h pre)) (e_skip A st)).
     Proof.
-      intros (P & Q & S) SK L. repeat split; cbn [e_pre e_post e_skip].
+      intros (P & Q) L. split; cbn [e_pre e_post e_skip].
       - apply tset_le; auto. eapply le_trans; [apply analyze_mono; exact L|apply sol_post].
       - apply tset_le; auto.
-      - rewrite SK. discriminate.
     Qed.
 
     Lemma inc_loop_below : forall f i pre st,
-      Below st -> e_skip A st = false -> le pre (Lpre h) ->
+      Below st -> le pre (Lpre h) ->
       match inc_loop A OP analyze preds delay use_asm asm vbody h entry_pre f i pre st with
-      | Some (pre', st') => Below st' /\ e_skip A st' = false /\ le pre' (Lpre h)
+      | Some (pre', st') => Below st' /\ le pre' (Lpre h)
       | None => True
       end.
     Proof.
-      induction f as [|f IH]; intros i pre st B SK L; cbn [inc_loop]; auto.
-      pose proof (set_head_below st pre B SK L) as B1.
-      specialize (vbody_below _ B1 SK).
-      destruct (vbody _) as [st2|]; auto. destruct vbody_below as [B2 SK2].
-      pose proof (head_inflow_below h entry_pre st2 B2 SK2 entry_pre_below) as NP.
+      induction f as [|f IH]; intros i pre st B L; cbn [inc_loop]; auto.
+      pose proof (set_head_below st pre B L) as B1.
+      specialize (vbody_below _ B1).
+      destruct (vbody _) as [st2|]; auto. rename vbody_below into B2.
+      pose proof (head_inflow_below h entry_pre st2 B2 entry_pre_below) as NP.
       destruct (o_leq A OP _ pre).
-      - destruct B2 as (P & Q & S). repeat split; cbn [e_pre e_post e_skip]; auto.
-        + apply tset_le; auto.
-        + rewrite SK2. discriminate.
+      - destruct B2 as (P & Q). repeat split; cbn [e_pre e_post e_skip]; auto.
+        apply tset_le; auto.
       - apply IH; auto. unfold extrapolate. destruct (i <=? delay); [|rewrite widen_is_join]; apply join_lub; auto.
     Qed.
 
     Lemma dec_loop_below : forall f i pre st,
-      Below st -> e_skip A st = false -> le pre (Lpre h) ->
+      Below st -> le pre (Lpre h) ->
       match dec_loop A OP analyze preds descending use_asm asm vbody h entry_pre f i pre st with
-      | Some st' => Below st' /\ e_skip A st' = false
+      | Some st' => Below st'
       | None => True
       end.
     Proof.
-      induction f as [|f IH]; intros i pre st B SK L; cbn [dec_loop]; auto.
+      induction f as [|f IH]; intros i pre st B L; cbn [dec_loop]; auto.
       assert (B1 : Below (mkE A (e_pre A st) (tset A (e_post A st) h (analyze h pre)) (e_skip A st))).
-      { destruct B as (P & Q & S). repeat split; cbn [e_pre e_post e_skip]; auto.
+      { destruct B as (P & Q). split; cbn [e_pre e_post e_skip]; auto.
         apply tset_le; auto. eapply le_trans; [apply analyze_mono; exact L|apply sol_post]. }
-      specialize (vbody_below _ B1 SK).
-      destruct (vbody _) as [st2|]; auto. destruct vbody_below as [B2 SK2].
+      specialize (vbody_below _ B1).
+      destruct (vbody _) as [st2|]; auto. rename vbody_below into B2.
       destruct (o_leq A OP pre _); auto.
       destruct (descending <? i); auto.
-      apply IH.
-      - destruct B2 as (P & Q & S). repeat split; cbn [e_pre e_post e_skip]; auto.
-        + apply tset_le; auto. unfold refine.
-          destruct (Nat.eqb i 1); [|rewrite narrow_is_meet]; eapply le_trans; [apply meet_l|exact L|apply meet_l|exact L].
-        + rewrite SK2. discriminate.
-      - exact SK2.
-      - unfold refine. destruct (Nat.eqb i 1); [|rewrite narrow_is_meet]; eapply le_trans; [apply meet_l|exact L|apply meet_l|exact L].
+      assert (LR : le (refine A OP i pre (head_inflow A OP preds use_asm asm h entry_pre st2)) (Lpre h)).
+      { unfold refine. destruct (Nat.eqb i 1); [|rewrite narrow_is_meet]; eapply le_trans; [apply meet_l|exact L|apply meet_l|exact L]. }
+      apply IH; [|exact LR].
+      destruct B2 as (P & Q). split; cbn [e_pre e_post e_skip]; auto.
+      apply tset_le; auto.
     Qed.
   End CycleBelow.
 
-  (* the analysis may start at a loop head, not strictly inside a loop *)
+  (* the analysis starts at a loop head or outside the loops: since the initial value now
+     flows into the entry block wherever it is, this condition is no longer needed by the
+     theorems; the definitions are kept for the executable tests that mention them *)
   Definition head_ok (c : comp) (h : nat) : bool := negb (comp_member entry c) || Nat.eqb h entry.
   Fixpoint entry_ok_c (c : comp) : bool :=
     match c with
@@ -204,103 +194,76 @@ Section Below.
   Qed.
 
   Definition visit_ok (c : comp) : Prop :=
-    forall st, Below st -> entry_ok_c c = true ->
-      match visit A OP analyze preds nest entry delay descending use_asm asm fuel c st with
-      | Some st' => Below st' /\ (e_skip A st = false -> e_skip A st' = false)
+    forall st, Below st ->
+      match visit A OP analyze preds nest entry delay descending use_asm asm init fuel c st with
+      | Some st' => Below st'
       | None => True
       end.
 
   Lemma visit_below : forall c, visit_ok c.
   Proof.
     fix IHc 1. intros c. destruct c as [n|h body].
-    - intros st B _. cbn [visit]. split; [apply visit_vertex_below; auto|].
-      intros SK. unfold visit_vertex. rewrite SK. reflexivity.
-    - intros st B OK. cbn [visit].
+    - intros st B. cbn [visit]. apply visit_vertex_below; auto.
+    - intros st B. cbn [visit].
       set (vb := fix vb (l : list comp) (s : est A) {struct l} : option (est A) :=
                    match l with
                    | [] => Some s
-                   | c' :: r => match visit A OP analyze preds nest entry delay descending use_asm asm fuel c' s with
+                   | c' :: r => match visit A OP analyze preds nest entry delay descending use_asm asm init fuel c' s with
                                 | Some s' => vb r s' | None => None end
                    end).
-      cbn [entry_ok_c] in OK. apply andb_true_iff in OK. destruct OK as [OKh OKb].
-      assert (VB : forall l, (fix all (l : list comp) : bool := match l with [] => true | c' :: r => entry_ok_c c' && all r end) l = true ->
-                   forall s, Below s -> e_skip A s = false ->
-                   match vb l s with Some s' => Below s' /\ e_skip A s' = false | None => True end).
-      { induction l as [|c' r IHl]; intros OKl s Bs SKs; cbn.
+      assert (VB : forall l s, Below s ->
+                   match vb l s with Some s' => Below s' | None => True end).
+      { induction l as [|c' r IHl]; intros s Bs; cbn.
         - auto.
-        - apply andb_true_iff in OKl. destruct OKl as [O1 O2].
-          pose proof (IHc c' s Bs O1) as V.
-          destruct (visit A OP analyze preds nest entry delay descending use_asm asm fuel c' s) as [s'|]; auto.
-          destruct V as [B' K']. apply IHl; auto. }
-      destruct (e_skip A st) eqn:SK.
-      + (* skipping so far *)
-        destruct (comp_member entry (Cycle h body)) eqn:MEM; cbn [andb negb].
-        * (* the analysis starts in this cycle: at its head *)
-          unfold head_ok in OKh. rewrite MEM in OKh. cbn [negb orb] in OKh. apply Nat.eqb_eq in OKh. subst h.
-          destruct B as (P & Q & S). specialize (S SK).
-          set (st0 := mkE A (e_pre A st) (e_post A st) false).
-          assert (B0 : Below st0) by (repeat split; auto; discriminate).
-          assert (EPB : forall ip, Some (e_pre A st entry) = Some ip ->
-                        le (strengthen A OP use_asm asm entry ip) (Lpre entry)).
-          { intros ip E. inversion E; subst. exact S. }
-          pose proof (inc_loop_below (vb body) (VB body OKb) entry (Some (e_pre A st entry))
-                        EPB
-                        fuel 1 (strengthen A OP use_asm asm entry (e_pre A st entry)) st0 B0 eq_refl S) as IL.
-          cbn [e_pre e_post e_skip] in *.
-          destruct (inc_loop _ _ _ _ _ _ _ _ _ _ _ _ _ _) as [[pre' st']|]; auto.
-          destruct IL as (B1 & K1 & L1).
-          destruct (Nat.eqb descending 0); [split; auto; discriminate|].
-          pose proof (dec_loop_below (vb body) (VB body OKb) entry (Some (e_pre A st entry))
-                        fuel 1 pre' st' B1 K1 L1) as DL.
-          destruct (dec_loop _ _ _ _ _ _ _ _ _ _ _ _ _ _) as [st''|]; auto.
-          destruct DL; split; auto; discriminate.
-        * split; [exact B|discriminate].
-      + cbn [andb negb].
-        destruct B as (P & Q & S).
-        set (st0 := mkE A (e_pre A st) (e_post A st) false).
-        assert (B0 : Below st0) by (repeat split; auto; discriminate).
-        assert (L0 : le (strengthen A OP use_asm asm h
-                           (fold_left (fun acc p => if deeper (nest p) (nest h) then acc else o_join A OP acc (e_post A st0 p))
-                                      (preds h) (o_bot A OP))) (Lpre h)).
-        { apply filtered_join_below; auto. }
-        assert (ENone : forall ip, @None A = Some ip -> le (strengthen A OP use_asm asm h ip) (Lpre h)) by (intros ip E; discriminate).
-        pose proof (inc_loop_below (vb body) (VB body OKb) h None ENone
-                      fuel 1 _ st0 B0 eq_refl L0) as IL.
-        cbn [e_pre e_post e_skip] in *.
-        destruct (inc_loop _ _ _ _ _ _ _ _ _ _ _ _ _ _) as [[pre' st']|]; auto.
-        destruct IL as (B1 & K1 & L1).
-        destruct (Nat.eqb descending 0); [split; auto|].
-        pose proof (dec_loop_below (vb body) (VB body OKb) h None
-                      fuel 1 pre' st' B1 K1 L1) as DL.
-        destruct (dec_loop _ _ _ _ _ _ _ _ _ _ _ _ _ _) as [st''|]; auto.
-        destruct DL; split; auto.
+        - pose proof (IHc c' s Bs) as V.
+          destruct (visit A OP analyze preds nest entry delay descending use_asm asm init fuel c' s) as [s'|]; [|exact I].
+          apply IHl. exact V. }
+      destruct (e_skip A st && negb (e_skip A st && comp_member entry (Cycle h body))); [exact B|].
+      destruct B as (P & Q).
+      set (st0 := mkE A (e_pre A st) (e_post A st) false).
+      assert (B0 : Below st0) by (split; auto).
+      assert (EPB : forall ip, (if Nat.eqb h entry then Some init else None) = Some ip ->
+                    le (strengthen A OP use_asm asm h ip) (Lpre h)).
+      { intros ip E. destruct (Nat.eqb_spec h entry) as [->|NE]; [|discriminate].
+        inversion E; subst. apply sol_init. }
+      assert (L0 : le (strengthen A OP use_asm asm h
+                         (if Nat.eqb h entry then init
+                          else fold_left (fun acc p => if deeper (nest p) (nest h) then acc else o_join A OP acc (e_post A st0 p))
+                                         (preds h) (o_bot A OP))) (Lpre h)).
+      { destruct (Nat.eqb_spec h entry) as [->|NE]; [apply sol_init|].
+        apply filtered_join_below; auto. }
+      pose proof (inc_loop_below (vb body) (VB body) h _ EPB fuel 1 _ st0 B0 L0) as IL.
+      cbn [e_pre e_post e_skip] in *.
+      destruct (inc_loop _ _ _ _ _ _ _ _ _ _ _ _ _ _) as [[pre' st']|]; auto.
+      destruct IL as (B1 & L1).
+      destruct (Nat.eqb descending 0); [exact B1|].
+      exact (dec_loop_below (vb body) (VB body) h _ fuel 1 pre' st' B1 L1).
   Qed.
 
-  Lemma visit_all_below : forall w st, Below st -> entry_ok w = true ->
-    match visit_all A OP analyze preds nest entry delay descending use_asm asm fuel w st with
+  Lemma visit_all_below : forall w st, Below st ->
+    match visit_all A OP analyze preds nest entry delay descending use_asm asm init fuel w st with
     | Some st' => Below st' | None => True end.
   Proof.
-    induction w as [|c r IH]; intros st B OK; cbn [visit_all]; auto.
-    cbn [entry_ok] in OK. apply andb_true_iff in OK. destruct OK as [O1 O2].
-    pose proof (visit_below c st B O1) as V.
-    destruct (visit _ _ _ _ _ _ _ _ _ _ _ _ _) as [st'|]; auto. destruct V. apply IH; auto.
+    induction w as [|c r IH]; intros st B; cbn [visit_all]; auto.
+    pose proof (visit_below c st B) as V.
+    destruct (visit _ _ _ _ _ _ _ _ _ _ _ _ _ _) as [st'|]; [|exact I].
+    apply IH. exact V.
   Qed.
 
   (* every table entry of the engine's result is below the solution *)
-  Theorem run_below w : entry_ok w = true ->
-    match run A OP analyze preds nest entry delay descending use_asm asm fuel w init with
+  Theorem run_below w :
+    match run A OP analyze preds nest entry delay descending use_asm asm init fuel w with
     | Some e => (forall n, le (e_pre A e n) (Lpre n)) /\ (forall n, le (e_post A e n) (Lpost n))
     | None => True
     end.
   Proof.
-    intros OK. unfold run.
+    unfold run.
     set (st0 := mkE A (tset A (fun _ => o_bot A OP) entry init) (fun _ => o_bot A OP) true).
     assert (B0 : Below st0).
-    { unfold st0. repeat split; cbn [e_pre e_post e_skip]; auto.
-      - intros n. unfold tset. destruct (Nat.eqb_spec n entry); subst; auto.
-      - intros _. unfold tset. rewrite Nat.eqb_refl. apply sol_init. }
-    pose proof (visit_all_below w st0 B0 OK) as V.
-    destruct (visit_all _ _ _ _ _ _ _ _ _ _ _ _ _) as [e|]; auto.
-    destruct V as (P & Q & _). split; auto.
+    { unfold st0. split; cbn [e_pre e_post e_skip]; auto.
+      intros n. unfold tset. destruct (Nat.eqb_spec n entry); subst; auto. }
+    pose proof (visit_all_below w st0 B0) as V.
+    destruct (visit_all _ _ _ _ _ _ _ _ _ _ _ _ _ _) as [e|]; auto.
+    destruct V as (P & Q). split; auto.
   Qed.
 End Below.
